@@ -98,10 +98,12 @@ def mutatorsUseResolvedNames (fs : List FlowFact) (ps : List (String Ã— String Ã
 def mutatorsMutate (fs : List FlowFact) : Bool :=
   backupMutators.all (fun m => (ofMethod fs "BackupFS" m).any (fun f => f.target == "base" && mutating f))
 
-/-- no other method of BackupFS issues a mutating base call directly -/
+/-- no other method of BackupFS issues a mutating base call directly (but for the one `MkdirAll` of Rollback) -/
 def noOtherBaseMutation (fs : List FlowFact) : Bool :=
   fs.all (fun f => !(f.recv == "BackupFS" && f.target == "base" && mutating f) ||
-    backupMutators.contains f.method || rollbackHelpers.contains f.method)
+    backupMutators.contains f.method || rollbackHelpers.contains f.method ||
+    -- Rollback itself re-creates a missing root directory (repair D28), nothing else
+    (f.method == "Rollback" && f.callee == "MkdirAll"))
 
 /-- nothing but `tryRemoveBackup` / the clean-up of Rollback removes from the backup directly -/
 def backupRemovalsConfined (fs : List FlowFact) : Bool :=
